@@ -1846,7 +1846,8 @@ class RTCSctpTransport(AsyncIOEventEmitter):
             msg_type = data[0]
             if msg_type == DATA_CHANNEL_OPEN and len(data) >= 12:
                 # we should not receive an open for an existing channel
-                assert stream_id not in self._data_channels
+                if stream_id in self._data_channels:
+                    return
 
                 (
                     msg_type,
@@ -1891,9 +1892,9 @@ class RTCSctpTransport(AsyncIOEventEmitter):
                 # emit channel
                 self.emit("datachannel", channel)
             elif msg_type == DATA_CHANNEL_ACK:
-                assert stream_id in self._data_channels
-                channel = self._data_channels[stream_id]
-                if channel.readyState == "connecting":
+                # the channel may have been closed in the meantime
+                channel = self._data_channels.get(stream_id)
+                if channel is not None and channel.readyState == "connecting":
                     channel._setReadyState("open")
         elif pp_id == WEBRTC_STRING and stream_id in self._data_channels:
             # emit message
